@@ -1,5 +1,6 @@
 import AranyaV.Proofs.BraidIndep
 import AranyaV.Proofs.BraidMech
+import AranyaV.Proofs.BraidExt
 /-!
 # C03 — Braided fact state equals the reference braid
 
@@ -22,7 +23,9 @@ that reference model *is*, for every well-formed graph and legal head set:
                            listings of the same commands give the same result;
   `braid_deterministic`  — the same for two graphs with the same members;
 * `reverse_topological`  — the removal sequence (reverse of the evaluation order) never removes a
-                           command before one of its descendants in the region.
+                           command before one of its descendants in the region;
+* `braid_region_only`    — the braid only looks at the ancestors of the heads: commands appended to the
+                           graph later (in any number) do not change the braid of old heads.
 
 Mechanism (`Model.BraidMech.implBraid`: strand heap popped by least key, `max_cut ≤ lca.max_cut`
 cut-off, convergence counts counted down by `should_continue`, same-segment shortcut, `lone` tested
@@ -170,6 +173,12 @@ theorem reverse_topological {g : Graph} (hw : WF g) {hs : List Nat} (hh : Heads 
   | false => rfl
   | true => exact absurd ((anc_iff hw y x).mp ha).2 hxy
 
+/-- **`braid_region_only`.** Appending commands to the graph does not change the braid of heads of
+the old graph (the result is a function of `anc*(heads)` alone). -/
+theorem braid_region_only {g ext : Graph} (hw : WF g) (hw' : WF (g ++ ext)) {hs : List Nat} (hh : Heads g hs) :
+    refBraid (g ++ ext) hs = refBraid g hs :=
+  refBraid_ext hw hw' hh
+
 /-! ## non-vacuity -/
 
 def exC (i : Nat) (ps : List Nat) (p : Priority) : Cmd := { id := i, parents := ps, prio := p, body := [] }
@@ -196,6 +205,11 @@ theorem exF_perm : exF.Perm exF' := List.Perm.cons _ (List.Perm.cons _ (List.Per
 
 example : exF.Perm exF' ∧ exF.map (·.id) ≠ exF'.map (·.id) ∧ refBraid exF [5, 4] = refBraid exF' [5, 4] :=
   ⟨exF_perm, by decide, braid_layout_indep exF_wf exF'_wf exF_perm _⟩
+
+/-- `exF` extended by two later commands (6 on 5, 7 on 4): the braid of the old heads is unchanged -/
+example : WF (exF ++ [exC 6 [5] (.basic 0), exC 7 [4] .finalize]) ∧
+    refBraid (exF ++ [exC 6 [5] (.basic 0), exC 7 [4] .finalize]) [5, 4] = refBraid exF [5, 4] :=
+  ⟨wfB_sound (by decide), braid_region_only exF_wf (wfB_sound (by decide)) exF_heads⟩
 
 /-- id-only tie-break: same priority, smaller id is removed first (evaluated last) -/
 example : keyLt (exC 4 [2] (.basic 0)) (exC 5 [3] (.basic 0)) = true ∧
